@@ -74,6 +74,7 @@ type Op struct {
 	Cas         uint64            `json:"cas,omitempty"` // resolved at execution time
 	Raw         bool              `json:"raw,omitempty"`
 	AddOnly     bool              `json:"addOnly,omitempty"`
+	Flags       int               `json:"flags,omitempty"` // further WriteOptions bits (Persist, Indexable) OR-ed in
 	Append      bool              `json:"append,omitempty"`
 	X           map[string]string `json:"x,omitempty"`          // xattrs to set: name -> raw JSON
 	XDel        []string          `json:"xdel,omitempty"`       // xattrs to delete / names for Remove/DeleteWithXattrs
@@ -111,6 +112,9 @@ func (o *Op) Variant() string {
 		}
 		if o.BodyNil {
 			sb.WriteString("+nil")
+		}
+		if o.Flags != 0 {
+			sb.WriteString("+persist/indexable")
 		}
 	case KUpdate, KWriteUpd:
 		sb.WriteString(":" + o.Mode)
@@ -362,6 +366,7 @@ func Exec(b *rosmar.Bucket, c *rosmar.Collection, o *Op) (res Result) {
 		if o.Append {
 			opt |= sgbucket.Append
 		}
+		opt |= sgbucket.WriteOptions(o.Flags) // Persist / Indexable: no meaning in rosmar, must change nothing
 		res.HasCas = true
 		var v any = body
 		if o.BodyNil {
